@@ -602,6 +602,13 @@ def run(check, an: Analysis):
                 check.instance('P', 'Process.interrupt:only-alive', alive is True,
                                event.where, 'interrupts are queued only while the process '
                                'has not finished', path=rules.path_lines(path, index))
+    check_interrupt_wins(check, an, 'P')
+    _run_after_interrupts(check, an)
+
+
+def check_interrupt_wins(check, an: Analysis, rule: str):
+    """a process that has an interrupt pending when its wait ends is resumed with the
+    interrupt -- also when the event it waited for has triggered meanwhile"""
     waiti = an.callee(PROCESS, '_wait_interruptible')
     wparams = [a.arg for a in waiti.fn.node.args.args]
     verdict, n, bad = True, 0, None
@@ -613,17 +620,53 @@ def run(check, an: Analysis):
         if native:
             continue
         n += 1
-        checked = any(e.kind == 'test' and e.get('key') == ('truth', wparams[2])
-                      for e in path.events)
-        if not checked:
+        pending = [key_truth(e) for e in path.events if e.kind == 'test'
+                   and e.get('key') == ('truth', wparams[2])]
+        # ... and a pending interrupt always wins: it is what the wait answers with
+        # whenever there is one, whatever became of the event meanwhile
+        answer = rules.value_text(path, len(path.events), path.outcome[1]) \
+            if path.outcome[1] is not None else 'None'
+        if not pending or (pending[-1] is True) != (answer == wparams[2]):
             verdict = False
             bad = bad or path
-    check.instance('P', 'Process._wait_interruptible:interrupt-checked-on-every-path',
+    check.instance(rule, 'Process._wait_interruptible:interrupt-checked-on-every-path',
                    verdict and n >= 3, where_fn(waiti.fn),
                    'whether or not the yielded event had to be waited for, a pending '
                    'interrupt replaces it (%d return paths)' % n,
                    path=rules.path_lines(bad) if bad else None, analysed=n)
-    flat = an.callee(CONDITION, '_flatten_values')
+
+
+def _run_after_interrupts(check, an: Analysis):
+    # the value a condition fires with is a snapshot taken at that moment: the members that
+    # are good *then*, nested conditions flattened -- computed by a method of the condition
+    # and handed to ConditionValue, which keeps what it is given
+    checker = an.method(CONDITION, '_check_events')
+    flatteners = set()
+    n_values = 0
+    for node in ast.walk(checker.node):
+        if isinstance(node, ast.Call) and ast.unparse(node.func).split('.')[-1] == \
+                'ConditionValue':
+            n_values += 1
+            for arg in node.args:
+                inner = arg.value if isinstance(arg, ast.Starred) else arg
+                if isinstance(inner, ast.Call) and isinstance(inner.func, ast.Attribute) \
+                        and isinstance(inner.func.value, ast.Name) \
+                        and inner.func.value.id in ('self', 'cls') and \
+                        an.p.find_method(CONDITION, inner.func.attr) is not None:
+                    flatteners.add(inner.func.attr)
+    value_cls = an.cls('usim.py.events.ConditionValue')
+    kept = rules.constructor_field(an, value_cls.qn, 'events')
+    lazy = an.p.find_method(value_cls.qn, 'events')
+    check.instance('P', 'Condition:value-is-a-snapshot', n_values > 0 and
+                   len(flatteners) == 1 and kept is not None and lazy is None,
+                   where_fn(checker), 'a condition succeeds with ConditionValue(*<members '
+                   'good now, flattened>) and ConditionValue keeps the events it is given '
+                   '(flattened by %s; kept: %s; computed on access: %s)' % (
+                       sorted(flatteners), ast.unparse(kept) if kept is not None else None,
+                       lazy is not None))
+    if len(flatteners) != 1:
+        return _run_after_flatten(check, an)
+    flat = an.callee(CONDITION, next(iter(flatteners)))
     verdict, n, bad = True, 0, None
     for path in an.paths(flat):
         seg_tests = []
@@ -640,12 +683,16 @@ def run(check, an: Analysis):
             elif event.kind == 'test' and event.depth == 0:
                 seg_tests.append(event)
     recursion = [n_ for n_ in ast.walk(flat.fn.node) if isinstance(n_, ast.Call)
-                 and ast.unparse(n_.func).endswith('._flatten_values')]
+                 and ast.unparse(n_.func).endswith('.' + flat.fn.name)]
     check.instance('P', 'Condition._flatten_values:nested-regardless-of-ok',
                    verdict and n > 0 and len(recursion) == 1, where_fn(flat.fn),
                    'a nested condition is flattened whether or not it has fired itself; '
                    'only plain members are filtered by `ok`',
                    path=rules.path_lines(bad) if bad else None, analysed=n)
+    _run_after_flatten(check, an)
+
+
+def _run_after_flatten(check, an: Analysis):
     for fn, node, kind, detail in rules.attribute_method_calls(an, '_causes', IQUEUE):
         if kind == 'call':
             if detail == 'pop':
@@ -733,6 +780,20 @@ def run(check, an: Analysis):
             n_int += 1
         if answer is not stored:
             ok, bad = False, bad or path
+    # what a process yields is only waited for: it may be shared with other waiters (a
+    # Task, a condition), so nothing else is ever done to it -- the wrapper neither calls
+    # nor inspects it
+    held = [n_ for m in an.cls('usim.py._awaitable.AwaitableEvent').methods.values()
+            for n_ in ast.walk(m.node) if isinstance(n_, ast.Attribute)
+            and n_.attr == '_awaitable' and isinstance(n_.value, ast.Name)]
+    awaited = {id(n_.value) for m in an.cls('usim.py._awaitable.AwaitableEvent').methods.values()
+               for n_ in ast.walk(m.node) if isinstance(n_, ast.Await)}
+    others = [n_ for n_ in held if isinstance(n_.ctx, ast.Load) and id(n_) not in awaited]
+    check.instance('P', 'AwaitableEvent:only-awaits-what-was-yielded',
+                   not others and len(held) >= 2, where_fn(waiter.fn),
+                   'the yielded awaitable is stored and awaited, nothing else (%d uses%s)' % (
+                       len(held), '' if not others else '; line %d does something else'
+                       % others[0].lineno))
     check.instance('P', 'AwaitableEvent.wait_interruptible', ok and n_done > 0 and n_int > 0,
                    where_fn(waiter.fn), 'returns True exactly on the paths that stored the '
                    'outcome of the awaitable (%d), False on the others (%d)' % (n_done, n_int),
